@@ -48,6 +48,10 @@ CHECKS = {
    technique="explicit-state BFS over the real witness (fresh sqlite database per state, states reached by replay of the shortest operation path), every transition compared with a reference witness",
    text="State = stored raw STH per log, read back from the witness database. From every reachable state every operation of the alphabet - Update x {2 configured logs, 1 unknown id} x candidate STHs from an honest and a forked Merkle tree family (sizes 0..5 (thorough 6), other timestamp, right/wrong embedded id, flipped signature, other log's key, unknown key, non-JSON) x 9 proof kinds (correct, empty, for other sizes, other family, truncated, padded, random, duplicated hash), GetSTH, GetLogs - is run on the real code both directly and through the HTTP server and compared with a reference (a map + RFC 6962 consistency verification): applied <=> valid signature for that log and (nothing held or genuine verified extension); refused updates leave every row unchanged and stale/inconsistent ones are answered with the held STH; every cosignature verifies under the witness key over the STH it accompanies.",
    note="The witness keeps no state outside its database table (asserted by reading the code), so rows are restored between the transitions of one expansion. Concurrent updates are serialised by the single-connection pool of the production setting; interleavings of concurrent updates are not yet explored."),
+ "C20": dict(level="exploration", engine="gate", design="5/C20",
+   technique="stateless deviation-bounded DFS over source/destination answer orders and faults, source growth, cancellation, mastership loss and restarts, on the real migration Controller with a gated HTTP source log and a gated reference pre-ordered backend under virtual time",
+   text="Scenario = source size x destination state {empty, honest prefix 1/2, full, ahead, 2-entry prefix of a fork} x batch 1-3 x fetchers/submitters 1-2 x channel size x identity function x one-shot / continuous with growth x Run / RunWhenMaster with a scripted election x restart on the left-over destination; per scenario every choice vector within the deviation bound (quick 2, thorough 3) over which pending source request or destination RPC is answered next and how (full, each short read, 429, 500, network error, bad STH signature, wrong consistency proof, lagging destination root, ResourceExhausted, Internal, DeadlineExceeded). Oracle on the recorded AddSequencedLeaves stream and the final destination: index i holds exactly source i with the configured identity hash; nothing at or beyond the largest validly signed STH served in the pass; no write past a non-empty destination root without an honest consistency proof (none at all on a forked destination); ResourceExhausted retried with the identical request; other destination errors end the pass; successful runs leave no gap; continuous mode catches up after growth.",
+   note="The real client.LogClient verifies the STH signatures with the source key. The destination is ref/reflog in pre-ordered mode (first writer wins). Back-off jitter is not owned; retries differing only by jitter are presented together. Interleavings at the granularity of HTTP round trips / RPCs."),
 }
 PENDING_REASON = "check not built yet in this round (design in DESIGN.md section 5); not claimed until its machinery exists and passes on the unchanged tree"
 checks, na = [], []
